@@ -83,6 +83,50 @@ class Impl:
         except Exception as e:  # noqa: BLE001
             return "!" + type(e).__name__
 
+    def run_tables(self, plan):
+        """plan = [(table index, case)]: one document with three tables (two of them added through add_table); every
+        step writes the case's value into the next free row of its table and formats it.  Returns the displays, read
+        after the last step, in plan order."""
+        from numbers_parser import Document
+        got = []
+        real_show = self.show
+
+        def capture(value, typ, **kw):
+            got.append((value, typ, kw))
+            return ""
+        self.show = capture
+        try:
+            for _, case in plan:
+                self.run(case)
+        finally:
+            self.show = real_show
+        if len(got) != len(plan):
+            return ["!harness"] * len(plan)
+        doc = Document(num_rows=len(plan) + 1, num_cols=2)
+        sheet = doc.sheets[0]
+        tables = [sheet.tables[0], sheet.add_table("Second", num_rows=len(plan) + 1, num_cols=2),
+                  sheet.add_table("Third", num_rows=len(plan) + 1, num_cols=2)]
+        rows = [0, 0, 0]
+        where = []
+        for (ti, _), (value, typ, kw) in zip(plan, got):
+            try:
+                tables[ti].write(rows[ti], 0, value)
+                tables[ti].set_cell_formatting(rows[ti], 0, typ, **kw)
+                where.append((ti, rows[ti]))
+            except Exception as e:  # noqa: BLE001
+                where.append("!" + type(e).__name__)
+            rows[ti] += 1
+        out = []
+        for w in where:
+            if isinstance(w, str):
+                out.append(w)
+                continue
+            try:
+                out.append(tables[w[0]].cell(w[1], 0).formatted_value)
+            except Exception as e:  # noqa: BLE001
+                out.append("!" + type(e).__name__)
+        return out
+
     def run(self, case):
         kind, v = case[0], dec_val(case[1])
         if kind == "num":
@@ -739,8 +783,9 @@ def run(ctx: Ctx) -> int:
         if res:
             ctx.oracle_fail(res[0], list(c), res[1])
     # a cell that was formatted and displayed before is formatted again: it shows what a freshly formatted cell shows
-    # (number, percentage, scientific, base and fraction formats - the formats that share the cell's number-format slot)
-    slot = [i for i, c in enumerate(cases) if c[0] in ("num", "pct", "sci", "bas", "fra") and not texts[i].startswith("!")]
+    # (number, percentage, scientific, base and fraction formats share the cell's number-format slot; a currency format has a
+    # slot of its own, and the later of the two requests is the one displayed)
+    slot = [i for i, c in enumerate(cases) if c[0] in ("num", "pct", "sci", "bas", "fra", "cur") and not texts[i].startswith("!")]
     rng = ctx.rng
     for _ in range(min(len(slot) // 2, 400 if ctx.quick else 4000)):
         i, j = rng.choice(slot), rng.choice(slot)
@@ -750,6 +795,18 @@ def run(ctx: Ctx) -> int:
         if got != texts[j]:
             ctx.oracle_fail("reformatted-cell-shows-stale-text", {"first": list(first), "then": list(cases[j])},
                             f"formatted as {first}, displayed, formatted as {cases[j]}: shows {got!r}; a freshly formatted cell shows {texts[j]!r}")
+    # the same formats requested in several tables of one document (format keys are per table): every cell shows what a
+    # cell of a one-table document shows
+    for _ in range(60 if ctx.quick else 600):
+        pool = [rng.choice(slot) for _ in range(3)]
+        plan = [(rng.randrange(3), cases[rng.choice(pool)]) for _ in range(rng.randrange(4, 9))]
+        ctx.count("oracle-several-tables")
+        got = im.run_tables(plan)
+        want = [im.run(c) for _, c in plan]
+        if got != want:
+            k = next(i for i in range(len(plan)) if got[i] != want[i])
+            ctx.oracle_fail("several-tables-display-differs", {"plan": [[ti, list(c)] for ti, c in plan]},
+                            f"step {k} (table {plan[k][0]}, {plan[k][1]}) of {len(plan)} shows {got[k]!r}; alone in a document it shows {want[k]!r}")
     return common.finish(ctx, search)
 
 
@@ -823,6 +880,15 @@ def replay(path: str) -> int:
     d = json.loads(open(path).read())
     if d.get("kind") == "failing-input":
         im = Impl()
+        if isinstance(d["case"], dict) and "plan" in d["case"]:
+            plan = [(ti, tuple(c)) for ti, c in d["case"]["plan"]]
+            got, want = im.run_tables(plan), [im.run(c) for _, c in plan]
+            print(f"replay: in one document with three tables: {got!r}; each alone: {want!r}")
+            if got != want:
+                print(f"VIOLATION property=C13 replay={path}")
+                return 1
+            print("replay: case passes on the current tree")
+            return 0
         if isinstance(d["case"], dict) and "first" in d["case"]:
             first, then = tuple(d["case"]["first"]), tuple(d["case"]["then"])
             fresh, again = im.run(then), im.run_after(first, then)
